@@ -615,3 +615,12 @@ for _prov, _tag in (("eqrel", "ds10"), ("trrel", "ds11"), ("trrel_uf", "ds12")):
     prog(f"{_prov}_bin", _ds_binary(_prov), f"ds {_tag}" + (" par" if _prov == "eqrel" else ""), bound=3, dom=3)
     prog(f"{_prov}_tern", _ds_ternary(_prov), f"ds {_tag}", bound=2, dom=3)
     prog(f"{_prov}_plain", _ds_plain(_prov), f"ds {_tag}" + (" par" if _prov == "eqrel" else ""), bound=3, dom=3)
+
+
+# ------------------------------------------------------------------------------------------------ seeded random programs
+import randprog as _rp   # noqa: E402
+
+for _s in range(1, 31):
+    prog(f"rnd_core_{_s:02d}", _rp.gen_program(1000 + _s, with_agg=False), "core par rnd", bound=2, dom=3)
+for _s in range(1, 16):
+    prog(f"rnd_agg_{_s:02d}", _rp.gen_program(2000 + _s, with_agg=True), "agg par rnd", bound=2, dom=3)
